@@ -250,6 +250,17 @@ func (b builder) buildHeaderKeys(md metadata.MD) map[string]string {
 	return kvMap
 }
 
+// keyEscaper and valueEscaper make the string produced by mapToString an
+// injective function of the map: the separators '=' and ',' are escaped in keys
+// and '=' is escaped in values (header values may contain both), so that e.g.
+// {a:"1,b=2"} and {a:"1", b:"2"} do not produce the same cache key. Commas in
+// values need no escaping: a value extends up to the last comma before the next
+// unescaped '='.
+var (
+	keyEscaper   = strings.NewReplacer(`\`, `\\`, `=`, `\=`, `,`, `\,`)
+	valueEscaper = strings.NewReplacer(`\`, `\\`, `=`, `\=`)
+)
+
 func mapToString(kv map[string]string) string {
 	keys := make([]string, 0, len(kv))
 	for k := range kv {
@@ -261,7 +272,7 @@ func mapToString(kv map[string]string) string {
 		if i != 0 {
 			fmt.Fprint(&sb, ",")
 		}
-		fmt.Fprintf(&sb, "%s=%s", k, kv[k])
+		fmt.Fprintf(&sb, "%s=%s", keyEscaper.Replace(k), valueEscaper.Replace(kv[k]))
 	}
 	return sb.String()
 }
